@@ -254,3 +254,8 @@ def update_run_totals_unit(ctx):
             got[e[2]] += e[3]
     ctx.check("per-scope-announced-amount==number-of-Call-nodes-with-that-full-scope(literals-ignored)", bool(got == want and all(e[0] == "total" for e in tr.ev)))
     ctx.check("every-announced-amount>=1-and-one-announcement-per-scope", bool(all(e[3] >= 1 for e in tr.ev) and len(tr.ev) == len(want)))
+
+
+from .sysprobe import replay_for as _replay_for  # noqa: E402
+
+REPLAYS = [("runpath.*", _replay_for([], 1500))]
